@@ -316,7 +316,9 @@ func runC10(t *testing.T, c DamageCase) *kit.Result {
 		}
 		// ---- single-byte corruptions
 		var positions []int
+		typeByte := map[int]bool{} // damage to a record's type byte re-frames what follows: always followed by further writes and a second recovery
 		for i, s := range starts {
+			typeByte[s+6] = true
 			for b := 0; b < 7; b++ {
 				positions = append(positions, s+b)
 			}
@@ -340,7 +342,7 @@ func runC10(t *testing.T, c DamageCase) *kit.Result {
 				img.SetByte(F, p, nv)
 				d := stepAt(p) // first damaged step; steps < d are the undamaged prefix
 				res.Fault([]string{"corrupt_bitflip", "corrupt_zero", "corrupt_ff", "corrupt_plus1"}[ci], 1)
-				recoverImage(img, fmt.Sprintf("corruption of %s byte %d: %#02x -> %#02x (inside step %d of %d)", F[strings.LastIndex(F, "/")+1:], p, old, nv, d, m.Len()), pi%16 == 0 && ci == 0, func(obs map[string][]byte) *kit.Violation {
+				recoverImage(img, fmt.Sprintf("corruption of %s byte %d: %#02x -> %#02x (inside step %d of %d)", F[strings.LastIndex(F, "/")+1:], p, old, nv, d, m.Len()), typeByte[p] || (pi%16 == 0 && ci == 0), func(obs map[string][]byte) *kit.Violation {
 					for _, k := range m.Keys() {
 						got, found := obs[string(k)]
 						okv := false
